@@ -13,6 +13,9 @@ package main
 //   pipelined-big-args a peer keeps many well-formed requests with large arguments in flight (never waiting for an
 //                      answer): every request is answered with the result for ITS OWN arguments, the process
 //                      survives and the link stays up                                                    (C06, C08, C09)
+//   two-links-dup-answers  two links on ONE registry, each with a hand-written peer that answers "<tag>|<arg>"; the
+//                      peer of link A answers every call several times (the surplus answers find no waiter); callers
+//                      hammer both links: a call made through link B's remote never returns an answer of A's peer (C13)
 //   error-response-write-fails  the handler returns an error and the transport refuses the response: Link returns
 //                      the transport's error                                                            (C16, C03)
 
@@ -68,6 +71,7 @@ type rpRemote struct {
 	Ping func(ctx context.Context) (string, error)
 	Get  func(ctx context.Context) (int, error)
 	Nop  func(ctx context.Context) error
+	Echo func(ctx context.Context, s string) (string, error)
 }
 
 var rawPeerScenarios = []string{"value-for-error-only", "dup-responses", "bad-response-value", "bad-closure-id", "bad-closure-id-spawned", "error-response-write-fails", "pipelined-big-args"}
@@ -106,6 +110,10 @@ func subRawPeer(args []string) {
 			time.Sleep(20 * time.Millisecond)
 		}
 		fmt.Println("DONE")
+		return
+	}
+	if sc == "two-links-dup-answers" {
+		subTwoLinksDup()
 		return
 	}
 	reg := rpc.NewRegistry[rpRemote, json.RawMessage](rpLocal{}, nil)
@@ -350,6 +358,7 @@ func runRawPeer(rep *Report, prop string) {
 		"C16": {"bad-closure-id", "error-response-write-fails"},
 		"C17": {"bad-closure-id", "value-for-error-only"},
 		"C03": {"error-response-write-fails"},
+		"C13": {"two-links-dup-answers"},
 		"C11": {"bad-closure-id"},
 	}[prop]
 	for _, sc := range rel {
@@ -368,4 +377,103 @@ func runRawPeer(rep *Report, prop string) {
 			}
 		}
 	}
+}
+
+func subTwoLinksDup() {
+	reg := rpc.NewRegistry[rpRemote, json.RawMessage](rpLocal{}, nil)
+	ctx, cancel := context.WithCancel(context.Background())
+	defer cancel()
+	type lnk struct {
+		tag           string
+		inRes, outReq *Queue
+		in            *Queue
+		id            string
+	}
+	mk := func(tag string, copies int) *lnk {
+		l := &lnk{tag: tag, inRes: NewQueue(), outReq: NewQueue(), in: NewQueue()}
+		connected := make(chan string, 1)
+		go reg.LinkMessage(ctx,
+			func(b json.RawMessage) error { return l.outReq.Put(b) }, func(b json.RawMessage) error { return nil },
+			func() (json.RawMessage, error) { b, e := l.in.Get(); return b, e }, func() (json.RawMessage, error) { b, e := l.inRes.Get(); return b, e },
+			func(v any) (json.RawMessage, error) { b, err := json.Marshal(v); return b, err },
+			func(data json.RawMessage, v any) error { return json.Unmarshal([]byte(data), v) },
+			&rpc.LinkHooks{OnClientConnect: func(id string) { connected <- id }})
+		select {
+		case l.id = <-connected:
+		case <-time.After(watchdog):
+		}
+		// the peer
+		go func() {
+			for {
+				b, err := l.outReq.Get()
+				if err != nil {
+					return
+				}
+				var req struct {
+					Call string   `json:"call"`
+					Args []string `json:"args"`
+				}
+				json.Unmarshal(b, &req)
+				arg := ""
+				if len(req.Args) > 0 {
+					arg = req.Args[0]
+				}
+				fr, _ := json.Marshal(map[string]any{"call": req.Call, "value": tag + "|" + arg, "err": ""})
+				for k := 0; k < copies; k++ {
+					l.inRes.Put(fr)
+				}
+			}
+		}()
+		return l
+	}
+	a, b := mk("A", 6), mk("B", 1)
+	rems := map[string]rpRemote{}
+	waitFor(func() bool {
+		reg.ForRemotes(func(id string, r rpRemote) error { rems[id] = r; return nil })
+		return len(rems) == 2
+	})
+	if a.id == "" || b.id == "" || len(rems) != 2 {
+		fmt.Println("BAD the two links did not come up")
+		return
+	}
+	stop := time.Now().Add(600 * time.Millisecond)
+	var bad atomic.Value
+	var wg sync.WaitGroup
+	var calls int64
+	for _, l := range []*lnk{a, b} {
+		for g := 0; g < 24; g++ {
+			l, g := l, g
+			wg.Add(1)
+			go func() {
+				defer wg.Done()
+				rem := rems[l.id]
+				for i := 0; time.Now().Before(stop) && bad.Load() == nil; i++ {
+					arg := fmt.Sprintf("%s%d-%d", strings.ToLower(l.tag), g, i)
+					c, cancel := context.WithTimeout(context.Background(), watchdog)
+					v, err := rem.Echo(c, arg)
+					cancel()
+					atomic.AddInt64(&calls, 1)
+					if err != nil {
+						bad.Store(fmt.Sprintf("call %q through link %s's remote failed: %v", arg, l.tag, err))
+						return
+					}
+					if v != l.tag+"|"+arg {
+						bad.Store(fmt.Sprintf("call %q made through link %s's remote returned %q: an answer of the other link's peer (or to another call) — link %s's peer answered it with %q", arg, l.tag, v, l.tag, l.tag+"|"+arg))
+						return
+					}
+				}
+			}()
+		}
+	}
+	wg.Wait()
+	if m := bad.Load(); m != nil {
+		fmt.Println("BAD " + m.(string))
+	}
+	cancel()
+	for _, l := range []*lnk{a, b} {
+		l.in.Close(nil)
+		l.inRes.Close(nil)
+		l.outReq.Close(nil)
+	}
+	fmt.Printf("DONE %d calls\n", atomic.LoadInt64(&calls))
 }
